@@ -28,8 +28,18 @@ func c01Opts(c *rt.C) EngOpt {
 	if c.Tier == "thorough" && c.Index%10 == 9 {
 		o.NWriters, o.NKeys = 8, 512
 	}
-	if o.Mem == "pageguard" && o.NKeys > 128 {
-		o.NKeys = 128 // keep the simultaneously live block count far below the VMA budget
+	if o.Mem == "pageguard" {
+		// two syscalls per block: keep these cases small (memory safety proper is C04's job)
+		if o.NKeys > 64 {
+			o.NKeys = 64
+		}
+		o.OpsPerWriter = 30 + r.Intn(60)
+		if o.Phases > 12 {
+			o.Phases = 12
+		}
+		if o.Scanners > 3 {
+			o.Scanners = 3
+		}
 	}
 	return o
 }
